@@ -22,7 +22,13 @@ STACK_POOLS = {
 def sym_tag(s):
     if isinstance(s, Epsilon) or getattr(s, "value", None) == "epsilon":
         return "eps"
-    return tag(s.value)
+    return tag(_v(s))
+
+
+def _v(x):
+    """value of a State / Symbol / StackSymbol; a bare object (even None) that ended up where such an object belongs
+    is projected as itself, so that the trace specification can reject it"""
+    return x.value if hasattr(x, "value") else x
 
 
 def project(p):
@@ -36,11 +42,11 @@ def project(p):
     delta = []
     for key, outs in p.to_dict().items():
         for s_to, stack_to in outs:
-            delta.append([tag(key[0].value), sym_tag(key[1]), tag(key[2].value), tag(s_to.value),
-                          [tag(x.value) for x in stack_to if sym_tag(x) != "eps"]])
-    return {"states": sorted(tag(s.value) for s in p.states),
-            "start": tag(p.start_state.value) if p.start_state is not None else "none",
-            "z0": z0, "finals": sorted(tag(s.value) for s in p.final_states), "delta": sorted(delta)}
+            delta.append([tag(_v(key[0])), sym_tag(key[1]), tag(_v(key[2])), tag(_v(s_to)),
+                          [tag(_v(x)) for x in stack_to if sym_tag(x) != "eps"]])
+    return {"states": sorted(tag(_v(s)) for s in p.states),
+            "start": tag(_v(p.start_state)) if p.start_state is not None else "none",
+            "z0": z0, "finals": sorted(tag(_v(s)) for s in p.final_states), "delta": sorted(delta)}
 
 
 def build(hist, spool="q", kpool="ZX", ymap=None):
